@@ -1352,6 +1352,12 @@ def dict_method(world, o, name, args, kw, it, node):
             it.raise_('KeyError', args[0], node=node)
         if name == 'copy':
             return SMapCell(m)
+        if name == 'setdefault' and isinstance(o, SMapCell) and args:
+            d = args[1] if len(args) > 1 else None
+            if it.branch(m.has(args[0])):
+                return m.get(args[0])
+            o.store(args[0], d)
+            return d
         if name == 'items' and not args:
             return PairStream([m])
         if name == 'update' and isinstance(o, SMapCell) and len(args) == 1:
